@@ -98,7 +98,10 @@ def gen_cases(rng, tier):
         L = rng.uniform(5, 40)
         P = rng.uniform(1.0, 3.0) / (gamma * L)
         sps, R = 50, 40e9                       # fs = 2 THz, band edge w_max = 2*pi rad/ps
-        wmax = np.pi * sps * R * 1e-12
+        # every other reference case configures the grid through (R, fs) with a NON-integer ratio (fs/R = 50.45): the
+        # dispersion operator must live on gv.fs, not on sps*R
+        gref = {"R": 40e9, "fs": 2.018e12} if i % 2 == 1 else None
+        wmax = np.pi * (gref["fs"] if gref else sps * R) * 1e-12
         # accumulated linear phase at the band edge kept moderate (5..30 rad) so that the reference is well conditioned
         ph2 = rng.uniform(5, 30) * rng.choice([-1, 1])
         ph3 = rng.uniform(5, 30) * rng.choice([-1, 1])
@@ -108,7 +111,7 @@ def gen_cases(rng, tier):
         cases.append({"kind": "run", "n": 64 if i % 2 == 0 else 63, "npol": rng.choice([1, 2]), "sps": sps, "R": R, "L": L, "gamma": gamma, "P": P,
                       "phi": rng.choice([0.05, 0.02]), "b2": b2, "b3": b3, "alpha": rng.choice([0.0, 0.2]),
                       "shape": "pulses", "lead0": rng.choice([0, 3]), "ypow": rng.choice([0.0, 0.5]),
-                      "seed": rng.getrandbits(32), "ref_steps": 4000})
+                      "seed": rng.getrandbits(32), "ref_steps": 4000, "gv": gref})
     # dedicated boundary cases
     base = {"kind": "run", "n": 64, "npol": 1, "sps": 16, "R": 10e9, "L": 20.0, "gamma": 2.0, "P": 0.09, "phi": 0.05, "b2": -20.0,
             "b3": 0.0, "alpha": 0.2, "shape": "random", "lead0": 4, "ypow": 0.0, "seed": 7}
@@ -120,6 +123,12 @@ def gen_cases(rng, tier):
     cases.append(dict(base, b2=0.0, b3=0.0, alpha=0.0))                # SPM, L_eff = L
     cases.append(dict(base, gamma=0.0))                                # linear
     cases.append(dict(base, npol=2, ypow=0.0))                         # y empty
+    # deep schedules: total nonlinear phase near the top of the range with a small phi_max -> thousands of adaptive steps
+    # (a floor / cap on the step size or on the step count only bites there); short records keep them cheap
+    cases.append(dict(base, n=32, L=50.0, gamma=2.0, P=0.1, phi=2.5e-3, alpha=0.0, b2=-5.0, lead0=0, seed=11, ref_steps=40000))   # ~4000 steps, judged against the fixed-step reference too
+    cases.append(dict(base, n=32, npol=2, ypow=0.5, L=80.0, gamma=1.25, P=0.1, phi=4e-3, alpha=0.1, b2=3.0, b3=0.05, lead0=0, seed=12))
+    if tier != "quick":
+        cases.append(dict(base, n=32, L=100.0, gamma=1.0, P=0.1, phi=1e-3, alpha=0.0, b2=-2.0, lead0=0, seed=13))      # ~10000 steps
     rng.shuffle(cases)
     return cases
 
